@@ -118,7 +118,7 @@ Proof.
   - unfold ctake. destruct (outq s); cbn; lia.
   - unfold deliver. destruct (closed s); [cbn; lia|]. destruct (lookup _ _); [|cbn; lia]. destruct last.
     + destruct (managed r).
-      * unfold release. cbn [set_inflight pool cfgN]. destruct (_ <? _); [|cbn; lia]. destruct (on_frame _ _ _ _ _ _); cbn; lia.
+      * unfold release. cbn [set_inflight pool cfgN]. destruct (_ <? _); destruct (on_frame _ _ _ _ _ _); cbn; lia.
       * destruct (on_frame _ _ _ _ _ _); cbn; lia.
     + destruct (on_frame _ _ _ _ _ _); cbn; lia.
   - cbn. lia.
@@ -220,7 +220,7 @@ Proof.
       destruct (managed r).
       * unfold release. cbn [set_inflight pool cfgN]. destruct (_ <? _).
         -- destruct (on_frame _ _ _ _ _ _) as [r' o]. cbn [fst] in *. now apply (Hfin (pool s ++ [k]) r').
-        -- cbn [fst]. now apply (Hfin (pool s) r).
+        -- destruct (on_frame _ _ _ _ _ _) as [r' o]. cbn [fst] in *. now apply (Hfin (pool s) r').
       * destruct (on_frame _ _ _ _ _ _) as [r' o]. cbn [fst] in *. now apply (Hfin (pool s) r').
     + destruct (on_frame _ _ _ _ _ _) as [r' o]. cbn [fst] in *. apply Hgen; try reflexivity.
       intros r0 Hin. unfold all_reqs in *. cbn [set_inflight inflight finished] in Hin. apply in_app_iff in Hin.
@@ -347,7 +347,7 @@ Proof.
     destruct (lookup k0 (inflight s)) as [r0|] eqn:Hl0; [|assumption]. destruct last.
     + assert (Hl' : lookup k (remove_key k0 (inflight s)) = Some r) by (rewrite lookup_remove_key_other; auto).
       destruct (managed r0).
-      * unfold release. cbn [set_inflight pool cfgN]. destruct (_ <? _); [|exact Hl']. destruct (on_frame _ _ _ _ _ _). exact Hl'.
+      * unfold release. cbn [set_inflight pool cfgN]. destruct (_ <? _); destruct (on_frame _ _ _ _ _ _); exact Hl'.
       * destruct (on_frame _ _ _ _ _ _). exact Hl'.
     + destruct (on_frame _ _ _ _ _ _). cbn [fst set_inflight inflight]. rewrite lookup_update_key_other; auto.
   - exists r. split; assumption.
